@@ -14,7 +14,7 @@ pub struct BfsStats {
 /// Level-synchronous BFS. `succ(state, depth)` returns the successors (after having checked its
 /// own oracles on each transition); `key(state)` is the canonical key for deduplication.
 /// Levels are expanded in parallel, results merged in order, so the search is deterministic.
-pub fn bfs<S: Send + Sync, K: Hash + Eq + Send>(
+pub fn bfs<S: Send, K: Hash + Eq + Send>(
     init: Vec<S>,
     max_depth: usize,
     max_states: usize,
